@@ -600,7 +600,7 @@ def history_strategy(variant):
     if variant in TLS_VARIANTS:
         toks.append(st.sampled_from([D.WANT_READ, D.WANT_WRITE]))
     tok = st.one_of(*toks)
-    sizes = st.one_of(st.integers(1, 6), st.integers(2, 80), st.integers(200, 2048))
+    sizes = st.one_of(st.integers(0, 6), st.integers(2, 80), st.integers(200, 2048))      # 0: an empty message
     rxitem = st.one_of(st.none(), st.integers(1, 20), st.integers(1, 5))
     sv = st.builds(lambda t: ["svtx", t], st.lists(tok, min_size=1, max_size=5))
     kinds = [
